@@ -927,10 +927,16 @@ func (ev *Eval) call(c *ssa.Call) *Term {
 }
 
 func (ev *Eval) inlinable(fn *ssa.Function) bool {
-	if fn == nil || fn.Blocks == nil || fn.Pkg == nil {
+	if fn == nil || fn.Blocks == nil {
 		return false
 	}
-	if !ev.E.InRepo(fn.Pkg.Pkg.Path()) {
+	pkg := fn.Pkg
+	if pkg == nil {
+		if o := fn.Origin(); o != nil {
+			pkg = o.Pkg // an instantiated generic has no package of its own
+		}
+	}
+	if pkg == nil || !ev.E.InRepo(pkg.Pkg.Path()) {
 		return false
 	}
 	if ev.depth >= ev.E.InlineDepth {
